@@ -18,15 +18,23 @@ func init() {
 		ID:        "C10",
 		Patterns:  enginePatterns,
 		Thorough:  enginePatterns,
-		Technique: "who-may-spawn + leading-defer recover shape (go/ast, go/types); panic-transport containment over a type-resolved call graph; zone-domain bounds analysis on go/ssa",
-		Explanation: "No SQL input crashes the engine — three structural clauses. (G1) every goroutine this module spawns (go statements, sync.WaitGroup.Go, time.AfterFunc, errgroup.Group.Go) " +
+		Technique: "who-may-spawn + leading-defer recover shape (go/ast, go/types); panic-transport containment over a type-resolved call graph; zone-domain bounds analysis on go/ssa (overflow-aware for the SQL functions)",
+		Explanation: "No SQL input crashes the engine — four structural clauses. (G1) every goroutine this module spawns (go statements, sync.WaitGroup.Go, time.AfterFunc, errgroup.Group.Go) " +
 			"runs an entry function whose leading defer statements include one whose callee directly calls recover(); errgroup.Group.Go is called only inside errguard.Go; a panic in any other " +
 			"goroutine kills the process and no caller can turn it into an error. (T1) panics used as exceptions (planbuilder.parseErr, memo.MemoErr): a function that can reach such a panic " +
 			"without passing a frame that recovers it (a deferred literal that type-switches the recovered value on that type, or recovers everything) is not called from another package, unless " +
 			"that caller is itself under such a frame on every module path: otherwise the exception escapes as a crash of the statement. (B1) the byte-level kernels that receive attacker-controlled " +
 			"bytes (RangeMap.Decode/Encode/EncodeReplaceUnknown/DecodeRune/EncodeRune, rangeBounds.contains, validateMysqlNativePassword) index and slice only in range on every path (bounds engine; " +
-			"the JSON quoting kernels are decided under C32).",
-		NotCovered: "nil dereferences, failed type assertions, index panics, unbounded recursion and hangs in the rest of the engine; panics raised by third-party code; " +
+			"the JSON quoting kernels are decided under C32). (B2) the built-in scalar SQL functions (packages sql/expression/function and sql/expression/function/json): in every function whose body " +
+			"slices a value or indexes a string, []byte or []rune (function literals included), each index and slice expression — on the strings, byte and rune slices computed from the client's arguments, and on argument lists — is in range " +
+			"on every path, with the integer operands taken as arbitrary 64-bit values: a sum, difference, negation or unsigned-to-signed conversion bounds something only where it provably does not wrap " +
+			"(LEFT/RIGHT/SUBSTRING/INSERT/LPAD/LOCATE/TRIM/SUBSTRING_INDEX-style position and length clamps, including for MinInt64/MaxInt64 and empty strings). An expression out of range panics in " +
+			"Expression.Eval and nothing up to Engine.Query or RowIter.Next recovers it.",
+		NotCovered: "nil dereferences, failed type assertions, unbounded recursion and hangs; index panics outside the byte kernels and the two built-in function packages (sql/expression itself — LIKE matcher, CASE, MATCH — the " +
+			"aggregation/window and spatial function packages are not decided: ST_GeomFromText('MULTIPOINT((1 2),)') panics in spatial.TrimWKTData today), and in functions of the two packages that neither slice nor index a text value (argument-list indexing alone); " +
+			"allocation sizes (make / strings.Repeat with a client-chosen count: LPAD('a', 9223372036854775807, 'b') panics in makeslice today); panics raised by third-party code; " +
+			"B2 rests on named exceptions for 7 expressions whose safety is a non-linear or constructor-established fact (listed in design_notes/C10.md), on standard-library contracts (io.Reader.Read, strings.Index, " +
+			"strconv/time result lengths) and on lengths below 2^40; " +
 			"T1 follows statically resolved calls and function literals (attributed to the enclosing function), not calls through interface values or stored function values",
 		Run: func(c *Ctx) {
 			defer c10Timer("total")()
@@ -36,6 +44,8 @@ func init() {
 			c10Timer("T1")()
 			runC10B1(c)
 			c10Timer("B1")()
+			runC10B2(c, c10B2Packages, c10B2Exceptions, 100)
+			c10Timer("B2")()
 		},
 		Fixture: func(c *Ctx, fx *Prog) {
 			expectFixture(c, fx, "c10: bare goroutine, recover not in the leading defers, errgroup.Go outside the guard, WaitGroup.Go without recover",
@@ -68,8 +78,22 @@ func init() {
 					fc.Rule("C10-B1", "", 0)
 					BoundsCheckFuncs(fc, "C10-B1", []*types.Func{LookupFunc(pk, "Map.Decode"), LookupFunc(pk, "Map.Encode"), LookupFunc(pk, "validate"), LookupFunc(pk, "validateOK")})
 				})
+			expectFixture(c, fx, "c10: miniature SQL functions: wrapping clamp, unchecked negation, empty-string position, weakened length test, over-advancing scanner loop, slice in a literal, i+1 / uint64 conversion / start+n that wrap, a field assigned through a base pointer (their guarded twins stay silent)",
+				[]string{
+					"C10-B2:SubstrBad/text[idx:idx + length]",
+					"C10-B2:TailBad/parts[start:end]",
+					"C10-B2:LocateBad/str[pos - 1:]",
+					"C10-B2:PrefixBad/v.([]byte)[:12]",
+					"C10-B2:CountBad/s[n + 1:]",
+					"C10-B2:LitBad/s[:n]",
+					"C10-B2:AddWrapBad/s[j - 1:]",
+					"C10-B2:ConvBad/s[i:]",
+					"C10-B2:PairBad/s[start:start + n]",
+					"C10-B2:C.First/c.kids[:1]",
+				},
+				func(fc *Ctx) { runC10B2(fc, []string{"testdata/c10/fn"}, nil, 0) })
 		},
-		FixturePkgs: []string{"./testdata/c10/spawn", "./testdata/c10/guard", "./testdata/c10/build", "./testdata/c10/user", "./testdata/c10/kern"},
+		FixturePkgs: []string{"./testdata/c10/spawn", "./testdata/c10/guard", "./testdata/c10/build", "./testdata/c10/user", "./testdata/c10/kern", "./testdata/c10/fn"},
 	})
 }
 
